@@ -8,7 +8,7 @@ import (
 
 var (
 	k6b  = bs("b")
-	k6dd = bs("dd")
+	k6dd = longKey("dd", 70) // long and not periodic: must come back from the file byte for byte
 	k6f  = bs("f")
 )
 
@@ -19,7 +19,7 @@ func c06Profiles(tier string) []Profile {
 		prios = []int32{1, 2, 3}
 	}
 	keys := [][]byte{k6b, k6dd, k6f}
-	targets := [][]byte{nil, {}, bs("a"), bs("b"), bs("c"), bs("d"), bs("dd"), bs("ddd"), bs("e"), bs("f"), bs("g")}
+	targets := [][]byte{nil, {}, bs("a"), bs("b"), bs("c"), bs("d"), k6dd, append(append([]byte{}, k6dd...), 'x'), bs("e"), bs("f"), bs("g")}
 	cmps := []string{"nil", "rev", "len"}
 	mk := func(cmp string) *SeqProfile {
 		other := map[string]string{"nil": "rev", "rev": "nil", "len": "rev"}[cmp]
@@ -66,12 +66,22 @@ func c06Profiles(tier string) []Profile {
 				target := targets[harness.Choose(len(targets), harness.ClassOp)]
 				wv := harness.Choose(2, harness.ClassOp) == 1
 				n := len(w.M.Cur.Colls["x"].Items)
-				w.Hist = append(w.Hist, fmt.Sprintf("[%s] api=%d target=%q withValue=%v", csName, api, target, wv))
+				w.Hist = append(w.Hist, fmt.Sprintf("[%s] api=%d target=%.4q withValue=%v", csName, api, target, wv))
 				w.Visit("x", api, target, wv, -1)
 				for stop := 0; stop <= n; stop++ {
 					w.Visit("x", api, target, wv, stop)
 				}
 				w.CheckVisitDepths()
+				// the same visit once more with a visitor that, as the mutating
+				// goroutine, inserts and deletes at its first callback: the visit must
+				// still deliver the range of the version it started on
+				pinned := w.M.Cur.Colls["x"].Clone()
+				w.VisitMutating("x", api, target, wv, pinned, func() {
+					w.SetItem("x", bs("c"), 9, bs("new"))
+					if n > 0 {
+						w.Delete("x", pinned.SortedKeys()[n/2])
+					}
+				})
 				w.ObserveAll()
 			},
 			Letters: func(w *harness.World) []Letter {
@@ -79,7 +89,7 @@ func c06Profiles(tier string) []Profile {
 				for _, k := range keys {
 					for _, p := range prios {
 						k, p := k, p
-						ls = append(ls, Letter{fmt.Sprintf("Set(%s,%d)", k, p), func(w *harness.World) { w.SetItem("x", k, p, bs("v-"+string(k))) }})
+						ls = append(ls, Letter{fmt.Sprintf("Set(%.2s,%d)", k, p), func(w *harness.World) { w.SetItem("x", k, p, bs("v-"+string(k[:1]))) }})
 					}
 				}
 				return ls
@@ -94,7 +104,7 @@ func c06Profiles(tier string) []Profile {
 		}
 	}
 	for _, c := range cmps {
-		ps = append(ps, mk(c).Profile(fmt.Sprintf("comparator %s: contents = every Set sequence of length <= %d over keys {b, dd, f} x priorities %v (every subset, insertion order, priority order incl. ties and overwrites) x cache state in {dirty, flushed, flushed+evicted (every random path), reopened, reopened+GetItem with value of each key, reopened+partial key-only visit} x API in {Ascend, Descend, AscendEx, DescendEx, IterateAscend, IterateDescend} x target in {nil, \"\", a, b, c, d, dd, ddd, e, f, g} x withValue x visitor stop position in {never, 0..n}; oracle: delivered sequence = model range under that comparator truncated at the stop, key/priority/value exact, Ex depth = true depth from the side-effect-free walk", c, depth, prios)))
+		ps = append(ps, mk(c).Profile(fmt.Sprintf("comparator %s: contents = every Set sequence of length <= %d over keys {b, dd+68 non-periodic bytes, f} x priorities %v (every subset, insertion order, priority order incl. ties and overwrites) x cache state in {dirty, flushed, flushed+evicted (every random path), reopened, reopened+GetItem with value of each key, reopened+partial key-only visit} x API in {Ascend, Descend, AscendEx, DescendEx, IterateAscend, IterateDescend} x target in {nil, \"\", a, b, c, d, the long key, the long key+x, e, f, g} x withValue x visitor stop position in {never, 0..n}; oracle: delivered sequence = model range under that comparator truncated at the stop, key/priority/value exact, Ex depth = true depth from the side-effect-free walk", c, depth, prios)))
 	}
 	return ps
 }
